@@ -731,6 +731,16 @@ def build_pipeline_inspection(
                     context_params[key] = key_origin.get(key)
                 required_params.add(key)
 
+        # Keys a context processor deletes must exist in the context itself: a value
+        # supplied through the node parameters does not make the key present.
+        if isinstance(node, _ContextProcessorNode):
+            for key in node.get_suppressed_keys():
+                if key not in context_params:
+                    context_params[key] = (
+                        key_origin.get(key) if key not in deleted_keys else None
+                    )
+                required_params.add(key)
+
         all_required_params.update(required_params)
 
         # Keys required here that earlier nodes deleted cannot be resolved at run time
